@@ -4,6 +4,7 @@ use serde_json::json;
 use vsim::{
     chan_inline::ChanInline,
     ctx_frames::CtxFrames,
+    ctx_spans::CtxSpans,
     fsim::Fsim,
     choices::Choices,
     core::{self, BatchCfg, Engine, Part, RunCtx},
@@ -35,6 +36,9 @@ fn engines_for(property: &str) -> Vec<(Box<dyn Engine>, u64, u64)> {
     match property {
         "C06" | "C07" | "C08" | "C09" => vec![(Box::new(ChanInline), 300_000, 6_000_000)],
         "C03" => vec![(Box::new(CtxFrames), 60_000, 2_000_000)],
+        "C04" => vec![(Box::new(CtxSpans { focus: "C04" }), 60_000, 2_000_000)],
+        "C05" => vec![(Box::new(CtxSpans { focus: "C05" }), 60_000, 2_000_000)],
+        "C18" => vec![(Box::new(CtxSpans { focus: "C18" }), 60_000, 2_000_000)],
         "C10" => vec![(Box::new(Fsim { mode: "C10" }), 5_000, 200_000)],
         "C11" => vec![(Box::new(Fsim { mode: "C11" }), 200_000, 5_000_000)],
         _ => vec![],
@@ -45,6 +49,9 @@ fn engine_by_name(name: &str) -> Option<Box<dyn Engine>> {
     match name {
         "chan-inline" => Some(Box::new(ChanInline)),
         "ctx-frames" => Some(Box::new(CtxFrames)),
+        "ctx-spans-tree" => Some(Box::new(CtxSpans { focus: "C04" })),
+        "ctx-spans-completion" => Some(Box::new(CtxSpans { focus: "C05" })),
+        "ctx-spans-traceparent" => Some(Box::new(CtxSpans { focus: "C18" })),
         "fsim-faults" => Some(Box::new(Fsim { mode: "C10" })),
         "fsim-rolling" => Some(Box::new(Fsim { mode: "C11" })),
         _ => None,
